@@ -363,7 +363,9 @@ type ReadSched struct {
 }
 
 func GenReadSched(r *core.RNG) ReadSched {
-	switch r.Intn(4) {
+	switch r.Intn(5) {
+	case 4:
+		return ReadSched{Mode: "big"} // a 1 MiB caller buffer: several chunks fit in one Read
 	case 0:
 		return ReadSched{Mode: "all"}
 	case 1:
@@ -376,10 +378,16 @@ func GenReadSched(r *core.RNG) ReadSched {
 // Drain reads r to its terminal error under the schedule.
 func Drain(r io.Reader, rs ReadSched, res *DecResult, onRead func(released int)) {
 	rng := core.NewRNG(rs.Seed ^ 0x4ead)
-	buf := make([]byte, 200001)
+	n0 := 200001
+	if rs.Mode == "big" {
+		n0 = 1 << 20
+	}
+	buf := make([]byte, n0)
 	for {
 		sz := 70000
 		switch rs.Mode {
+		case "big":
+			sz = 1 << 20
 		case "one":
 			sz = 1
 		case "sizes":
